@@ -15,7 +15,7 @@ pub fn def() -> PropDef {
         job_level,
         run_job,
         replay,
-        rule: "configs: every non-latching action-menu entry on key a (b, c plain) [U1]; curated feature-interaction configs [U3]; thorough adds all pairs on (a, b) [U2]. Histories: ALL physically consistent histories of exactly D steps over {press/release a,b,c, repeat a, tick 1, tick 6}, each completed by releasing the keys still down in ascending AND descending order, then the idle loop (can_block_update_idle_waiting(1) / tick_ms(1), as start_processing_loop does) until it reports idle, bounded by a 400-tick horizon. Capacity family: N in 30..=70 keys of one kind (plain, tap-hold, one-shot, layer-while-held, multi of 3, v1-chord member) + 3 probe keys (mwheel, mouse button, unmod), press tick pattern x release order x release tick pattern, all combinations. Oracle: loop reports idle within the horizon; OS-down set (keys, mouse buttons, raw codes) empty; 60 further ticks emit nothing and idle stays true. Distinct = distinct state digests.",
+        rule: "configs: every non-latching action-menu entry on key a (b, c plain) [U1]; curated feature-interaction configs [U3] and zippychord configs (two-key chord, single-key follow-up, top-level single-key chord; also explored from the state right after the two-key chord was typed); thorough adds all pairs on (a, b) [U2]. Histories: ALL physically consistent histories of exactly D steps over {press/release a,b,c, repeat a, tick 1, tick 6}, each completed by releasing the keys still down in ascending AND descending order, then the idle loop (can_block_update_idle_waiting(1) / tick_ms(1), as start_processing_loop does) until it reports idle, bounded by a 400-tick horizon. Capacity family: N in 30..=70 keys of one kind (plain, tap-hold, one-shot, layer-while-held, multi of 3, v1-chord member) + 3 probe keys (mwheel, mouse button, unmod), press tick pattern x release order x release tick pattern, all combinations. Oracle: loop reports idle within the horizon; OS-down set (keys, mouse buttons, raw codes) empty; 60 further ticks emit nothing and idle stays true. Distinct = distinct state digests.",
         assumptions: &[
             "configs outside the enumerated universes and histories longer than the completed depth are not covered",
             "latching actions (press-vkey / toggle-vkey without release) and live-reload requests are excluded as the property allows (reload is C15)",
@@ -212,6 +212,14 @@ fn jobs(tier: Tier) -> &'static Vec<Job> {
                     v.push(Job { tag: format!("U3/{}", CURATED[i].0), cfg: cfg.clone(), depth: d3, prefix: p.clone(), kind: 0, cap_kind: 0, cap_n: 0, level: lvl });
                 }
             }
+            for (tag, text) in EXTRA_CFGS {
+                for p in &pre1 {
+                    v.push(Job { tag: format!("U3x/{tag}"), cfg: text.to_string(), depth: d3 + 1, prefix: p.clone(), kind: 0, cap_kind: 0, cap_n: 0, level: lvl });
+                }
+                // after the two-key chord has been typed and released: follow-up chords are armed
+                let (a, b) = (kc("a"), kc("b"));
+                v.push(Job { tag: format!("U3x/{tag}/after-chord"), cfg: text.to_string(), depth: 4 + 4, prefix: vec![Ev::P(a), Ev::P(b), Ev::R(a), Ev::R(b)], kind: 0, cap_kind: 0, cap_n: 0, level: lvl });
+            }
             if let Some(d2) = d2 {
                 for m1 in &menu {
                     for m2 in &menu {
@@ -241,6 +249,13 @@ fn job_level(t: Tier, i: usize) -> u32 {
 fn required_level(_t: Tier) -> u32 {
     0
 }
+
+/// Full-text configs (with embedded files) explored like the curated ones: (tag, text, prefix history)
+pub const EXTRA_CFGS: &[(&str, &str)] = &[
+    // zippychord: a two-key chord, a single-key follow-up of it, and a top-level single-key chord
+    ("zippy", ";; KMC-FILE file ab\\txy\\nab c\\tzq\\nc\\tw\n(defcfg)\n(defsrc a b c)\n(deflayer base a b c)\n(defzippy file on-first-press-chord-deadline 20 idle-reactivate-time 5)\n"),
+    ("zippy-smart-space", ";; KMC-FILE file ab\\txy\\nab c\\tzq\n(defcfg)\n(defsrc a b c)\n(deflayer base a b c)\n(defzippy file on-first-press-chord-deadline 20 idle-reactivate-time 5 smart-space full)\n"),
+];
 
 pub const HORIZON: u32 = 400;
 const QUIET: u32 = 60;
